@@ -11,8 +11,7 @@ package zkmul
 
 //@ func (*Proof).Verify
 //@   nopanic[C10]
-//@   modifies nothing
-//@   allocates
+//@   modifies hstate(hash)
 //@   requires group != nil && hash != nil && hash.h != nil && public.X != nil && public.Y != nil && public.C != nil && pkok(public.Prover)
 
 //@ func challenge
